@@ -333,6 +333,30 @@ func c13Run(cell c13Cell) (nontrivial bool, err error) {
 			}
 		}
 	}
+	// a datatype that a client has entered works: what the client issues from now on reaches the server
+	for _, a := range actors {
+		if a.outcome != "created" && a.outcome != "subscribed" {
+			continue
+		}
+		for i := 0; i < 2; i++ {
+			sim.Exec(cell.Kind, a.d.dt, c06CheapCall(cell.Kind, 900+10*a.c.idx+i))
+		}
+		if ex := w.syncClient(a.c); ex != nil {
+			if err := exchangeProblem(a.c, ex); err != nil {
+				return true, fmt.Errorf("client %d: the sync of two operations issued after entering (%s) fails: %v", a.c.idx, a.outcome, err)
+			}
+		}
+		if a.d.dt.NeedPush() {
+			return true, fmt.Errorf("client %d: operations issued after entering (%s) are still unpushed after a sync", a.c.idx, a.outcome)
+		}
+		sc, _, e := w.serverCopy(k)
+		if e != nil {
+			return true, fmt.Errorf("the server cannot rebuild the datatype: %v", e)
+		}
+		if got, want := sim.Canon(sc.(orda.Datatype).ToJSON()), sim.Canon(a.d.dt.(orda.Datatype).ToJSON()); got != want {
+			return true, fmt.Errorf("client %d entered the datatype (%s), issued two operations and synced, but the server's copy does not have them:\n  client: %s\n  server: %s", a.c.idx, a.outcome, want, got)
+		}
+	}
 	waitHandlers()
 	time.Sleep(2 * time.Millisecond)
 	waitHandlers()
